@@ -19,6 +19,7 @@ func factsMore(x *extractor) {
 	x.factsAging()
 	x.factsUnreach()
 	x.factsAds()
+	x.factsVerify()
 }
 
 const netceptorGo = "pkg/netceptor/netceptor.go"
@@ -818,4 +819,133 @@ func (x *extractor) factsAds() {
 	x.set("ads_keep_test", keep)
 	x.set("ads_tombstones", tomb)
 	x.set("ads_relay", relay)
+}
+
+// ---------------------------------------------------------------- C09: peer verification
+
+func (x *extractor) factsVerify() {
+	pins, steps, usages, nameRule, nameCmp, clientCfg, listener := "unknown", "unknown", "unknown", "unknown", "unknown", "unknown", "unknown"
+	if fd := x.fn(netceptorGo, "", "ReceptorVerifyFunc"); fd != nil {
+		// pin lengths: the composite literals {28, &sha224sum, …}
+		var lens []string
+		type mark struct {
+			pos  token.Pos
+			name string
+		}
+		var marks []mark
+		var us []string
+		ast.Inspect(fd, func(n ast.Node) bool {
+			switch v := n.(type) {
+			case *ast.CompositeLit:
+				if len(v.Elts) == 3 {
+					if bl, ok := v.Elts[0].(*ast.BasicLit); ok && strings.HasPrefix(x.str(v.Elts[1]), "&sha") {
+						lens = append(lens, bl.Value)
+					}
+				}
+			case *ast.CallExpr:
+				switch x.str(v.Fun) {
+				case "x509.ParseCertificate":
+					marks = append(marks, mark{v.Pos(), "parse"})
+				case "certs[0].Verify":
+					marks = append(marks, mark{v.Pos(), "chain"})
+				case "utils.ParseReceptorNamesFromCert":
+					marks = append(marks, mark{v.Pos(), "name"})
+				}
+			case *ast.IfStmt:
+				c := x.str(v.Cond)
+				if c == "len(pinnedFingerprints) > 0" {
+					marks = append(marks, mark{v.Pos(), "pins"})
+					// both failure exits must return an error
+					b := x.str(v.Body)
+					if strings.Count(b, "return fmt.Errorf(") < 2 || !strings.Contains(b, "if !fingerprintOK") || !strings.Contains(b, "if !fingLenFound") {
+						marks = append(marks, mark{v.Pos() + 1, "pins?"})
+					}
+				}
+				if c == "expectedHostnameType == ExpectedHostnameTypeReceptor" {
+					inner := ""
+					ast.Inspect(v.Body, func(m ast.Node) bool {
+						if is, ok := m.(*ast.IfStmt); ok && x.str(is.Cond) == "!found" && strings.Contains(x.str(is.Body), "return ReceptorCertNameError") {
+							inner = "!found:ReceptorCertNameError"
+						}
+						return true
+					})
+					nameRule = c + ";" + inner
+				}
+			case *ast.CaseClause:
+				if len(v.List) == 1 && (x.str(v.List[0]) == "VerifyServer" || x.str(v.List[0]) == "VerifyClient") {
+					ast.Inspect(v, func(m ast.Node) bool {
+						if kv, ok := m.(*ast.KeyValueExpr); ok && x.str(kv.Key) == "KeyUsages" {
+							us = append(us, x.str(v.List[0])+":"+strings.TrimSuffix(strings.TrimPrefix(x.str(kv.Value), "[]x509.ExtKeyUsage{x509."), "}"))
+						}
+						return true
+					})
+				}
+			}
+			return true
+		})
+		pins = strings.Join(lens, ",")
+		sort.Slice(marks, func(i, j int) bool { return marks[i].pos < marks[j].pos })
+		var ms []string
+		for _, m := range marks {
+			ms = append(ms, m.name)
+		}
+		steps = strings.Join(ms, ",")
+		usages = strings.Join(us, ";")
+	}
+	if fd := x.fn("pkg/utils/common.go", "", "ParseReceptorNamesFromCert"); fd != nil {
+		ast.Inspect(fd, func(n ast.Node) bool {
+			if is, ok := n.(*ast.IfStmt); ok && strings.Contains(x.str(is.Body), "found = true") {
+				nameCmp = x.str(is.Cond)
+			}
+			return true
+		})
+	}
+	if fd := x.fn(netceptorGo, "Netceptor", "GetClientTLSConfig"); fd != nil {
+		ast.Inspect(fd, func(n ast.Node) bool {
+			if is, ok := n.(*ast.IfStmt); ok && x.str(is.Cond) == "!tlscfg.InsecureSkipVerify" {
+				parts := []string{x.str(is.Cond) + ":"}
+				b := x.str(is.Body)
+				if strings.Contains(b, "tlscfg.VerifyPeerCertificate = ReceptorVerifyFunc(tlscfg, pinnedFingerprints, expectedHostName, expectedHostNameType, VerifyServer, s.Logger)") {
+					parts[0] += "VerifyPeerCertificate"
+				}
+				ast.Inspect(is.Body, func(m ast.Node) bool {
+					if cc, ok := m.(*ast.CaseClause); ok && len(cc.List) == 1 && len(cc.Body) == 1 {
+						lbl := strings.TrimPrefix(x.str(cc.List[0]), "ExpectedHostnameType")
+						as := x.str(cc.Body[0])
+						switch {
+						case as == "tlscfg.ServerName = expectedHostName":
+							parts = append(parts, lbl+":ServerName")
+						case as == "tlscfg.InsecureSkipVerify = true":
+							parts = append(parts, lbl+":InsecureSkipVerify")
+						default:
+							parts = append(parts, lbl+":?"+as)
+						}
+					}
+					return true
+				})
+				clientCfg = strings.Join(parts, ";")
+			}
+			return true
+		})
+	}
+	if fd := x.fn("pkg/netceptor/conn.go", "Netceptor", "listen"); fd != nil {
+		ast.Inspect(fd, func(n ast.Node) bool {
+			if as, ok := n.(*ast.AssignStmt); ok && x.str(as.Lhs[0]) == "remoteNode" {
+				listener = x.str(as.Rhs[0])
+			}
+			if as, ok := n.(*ast.AssignStmt); ok && x.str(as.Lhs[0]) == "clientTLSCfg.VerifyPeerCertificate" {
+				if c, ok := as.Rhs[0].(*ast.CallExpr); ok && len(c.Args) == 6 && x.str(c.Args[2]) == "remoteNode" {
+					listener += ";" + x.str(c.Args[3]) + ";" + x.str(c.Args[4])
+				}
+			}
+			return true
+		})
+	}
+	x.set("rvf_pin_lengths", pins)
+	x.set("rvf_steps", steps)
+	x.set("rvf_usages", usages)
+	x.set("rvf_name_rule", nameRule)
+	x.set("rvf_name_compare", nameCmp)
+	x.set("tls_client_cfg", clientCfg)
+	x.set("tls_listener_expected", listener)
 }
